@@ -36,6 +36,13 @@ impl Prop for C14P {
             v.push(format!("{} from", r.enc()));
             v.push(format!("{} within", r.enc()));
         }
+        // lines of 9 and 17 cells (beyond the block sizes of chunked or unrolled copies), owned and as windows
+        for rd in long_line_receivers() {
+            v.push(format!("{} from", rd.enc()));
+            if rd.size().0 * rd.size().1 <= 20 {
+                v.push(format!("{} within", rd.enc()));
+            }
+        }
         for (c, r) in crate::engine::util::shapes(3) {
             v.push(format!("zst {}x{} x", c, r));
             if c > 0 {
@@ -82,6 +89,11 @@ impl Prop for C14P {
     fn bound(&self, tier: Tier) -> String {
         format!("N = {}", n_for(tier))
     }
+}
+
+/// Receivers with lines of 9 and 17 cells.
+fn long_line_receivers() -> Vec<Recv> {
+    vec![Recv::owned(9, 2), Recv::owned(2, 9), Recv::owned(17, 1), Recv::owned(1, 17), Recv::window(11, 3, (1, 0), (10, 2)), Recv::window(11, 2, (2, 0), (11, 2)), Recv::foreign_owned(9, 2)]
 }
 
 fn judge(cs: &mut Case, op: &str, valid: bool, res: &Result<(), String>, diff: Option<String>) {
@@ -133,12 +145,16 @@ fn run_from(rd: &Recv, ctx: &mut Ctx) {
     let (c, r) = rd.size();
     let n = n_for(ctx.tier);
     let from_flat = |flat: Vec<super::recv::Kt>| move |_: &Model<(u8, u16)>| Model::from_flat(c, r, &flat.iter().map(|k| (k.key, k.tag)).collect::<Vec<_>>());
-    for len in 0..=n * n + 1 {
+    for len in 0..=(n * n).max(c * r) + 1 {
         let valid = len == c * r;
         run_one(rd, Op::CopyFromSlice(len), "copy_from_slice", valid, from_flat(src_slice(c * r)), ctx);
         run_one(rd, Op::CloneFromSlice(len), "clone_from_slice", valid, from_flat(src_slice(c * r)), ctx);
     }
-    for (sc, sr) in crate::engine::util::shapes(n) {
+    let mut src_shapes = crate::engine::util::shapes(n);
+    if !src_shapes.contains(&(c, r)) {
+        src_shapes.extend([(c, r), (r, c), (c + 1, r), (c, r + 1), (c - 1, r)]);
+    }
+    for (sc, sr) in src_shapes {
         for k in 0..3u8 {
             let valid = (sc, sr) == (c, r);
             run_one(rd, Op::CopyFromToodee(k, sc, sr), "copy_from_toodee", valid, from_flat(src_slice(c * r)), ctx);
